@@ -13,6 +13,7 @@ exit codes follow the decision. Declines equality of answers for all inputs.
 from lib import shape, cfg, protocol, tt, panics
 from lib.callgraph import CallGraph
 from lib.facts import callee
+from lib.slice import leaf_producers
 from lib.rulelib import AtomOracle, arg_syms, get_fn, short, syms, res_calls
 
 FFI = "cedar_policy::ffi::is_authorized::"
@@ -297,6 +298,72 @@ def cli_table(chk, facts):
         chk.ob(rule, "exit-codes-distinct", distinct, "CedarExitCode variants map to distinct process exit codes: %s" % codes, where=g.where(), fn=g.name, sample=codes)
 
 
+def validate_flow(chk, facts):
+    """ffi::validate returns what Validator::validate returns for the same inputs: the requested mode is passed on, every error goes to
+    validationErrors and every warning to validationWarnings (unfiltered, not swapped), with the policy id each one names."""
+    rule = "C19.FLOW.validate"
+    f = get_fn(chk, facts, rule, "cedar_policy::ffi::validate::validate")
+    if f is None:
+        return
+    vs = [(b, t) for b, t in f.calls() if callee(t).endswith("api::Validator::validate")]
+    if len(vs) != 1:
+        chk.ob(rule, "call", False, "expected one Validator::validate call, found %d" % len(vs), where=f.where(), fn=f.name)
+        return
+    b, t = vs[0]
+    mode_ok = False
+    o = t[2][2] if len(t[2]) > 2 else None
+    if o is not None:
+        src = leaf_producers(f, o)
+        mode_ok = any(x.startswith("place:") and x.endswith("mode") for x in src) and not any(x == "const" for x in src)
+    chk.ob(rule, "mode", mode_ok, "the validation mode handed to Validator::validate is the call's own settings.mode: %s" % mode_ok, where=f.where(t[1].get("l")), fn=f.name)
+    split = [(bb, tt_) for bb, tt_ in f.calls() if callee(tt_).endswith("into_errors_and_warnings")]
+    ok = False
+    det = "no into_errors_and_warnings"
+    if split:
+        dest = split[0][1][3][0]
+
+        def seed(p):
+            if p[0] == dest and len(p) > 1 and isinstance(p[1], list) and p[1][0] == "f":
+                return ["ERRS" if p[1][1] == 0 else "WARNS"]
+            return []
+        L = shape.Labels(f, None, seed)
+        VA = [s_ for _, s_ in f.stmts() if s_[0] == "a" and s_[2][0] == "agg" and s_[2][1][0] == "adt" and s_[2][1][1].endswith("ffi::validate::ValidationAnswer") and s_[2][1][2] == "Success"]
+        if VA:
+            got = {nm: {x for x in L.operand_labels(o_) if x in ("ERRS", "WARNS")} for nm, o_ in zip(VA[0][2][1][3], VA[0][2][2])}
+            ok = got.get("validation_errors") == {"ERRS"} and got.get("validation_warnings") == {"WARNS"}
+            det = "validation_errors <- %s, validation_warnings <- %s" % (sorted(got.get("validation_errors", [])), sorted(got.get("validation_warnings", [])))
+    filt = sorted({callee(tt_).split("::")[-1] for bb, tt_ in f.calls() if callee(tt_).split("::")[-1] in ("filter", "filter_map", "take", "skip", "take_while", "skip_while", "dedup", "truncate")})
+    chk.ob(rule, "errors-and-warnings", ok and not filt, "%s%s" % (det, (" — filtered by %s" % filt) if filt else ""), where=f.where(), fn=f.name, key="%s:errors-and-warnings" % rule)
+    # each reported item names the policy the error names
+    ids_ok = True
+    ncl = 0
+    for cl in facts.closures_of(f.name):
+        aggs = [s_ for _, s_ in cl.stmts() if s_[0] == "a" and s_[2][0] == "agg" and s_[2][1][0] == "adt" and s_[2][1][1].endswith("ffi::validate::ValidationError")]
+        for s_ in aggs:
+            ncl += 1
+            Lc = shape.Labels(cl, None, None, call_labels=lambda c, t_: ["PID"] if c.endswith("::policy_id") else None, param_labels={2: {"ITEM"}})
+            got = {nm: Lc.operand_labels(o_) for nm, o_ in zip(s_[2][1][3], s_[2][2])}
+            ids_ok &= "PID" in got.get("policy_id", set()) and "ITEM" in got.get("error", set())
+    chk.ob(rule, "policy-ids", ids_ok and ncl >= 2, "each reported error / warning carries the policy id the validator's item names and the item itself (%d conversion sites): %s" % (ncl, ids_ok), where=f.where(), fn=f.name)
+    # ffi mode -> api mode table
+    conv = None
+    for n in facts.fns.index:
+        if "From<cedar_policy::api::ValidationMode>" in n and n.endswith("::from") and "closure" not in n:
+            conv = facts.fns[n]
+    if conv is None:
+        chk.lost(rule, "From<api::ValidationMode> for the core ValidationMode")
+    else:
+        src = facts.adts.get("cedar_policy::api::ValidationMode")
+        m = {}
+        for b2, scrut, arms, other in shape.variant_switches(conv, "api::ValidationMode"):
+            for vi, tgt in arms.items():
+                for x in cfg.reachable(conv, tgt, cut_blocks={b2}):
+                    for s_ in conv.blocks[x]["st"]:
+                        if s_[0] == "a" and s_[1] == [0] and s_[2][0] == "agg" and s_[2][1][0] == "adt":
+                            m[src["variants"][vi]["name"]] = s_[2][1][2]
+        chk.ob(rule, "mode-table", bool(m) and all(k == v for k, v in m.items()), "api ValidationMode (the type the JSON interface deserialises) -> core ValidationMode maps %s" % m, where=conv.where(), fn=conv.name, sample={"table": m})
+
+
 def run(chk, facts, tier):
     facts.load_crate("cedar_policy_core.lib")
     facts.load_crate("cedar_policy.lib")
@@ -313,3 +380,4 @@ def run(chk, facts, tier):
     cache_ownership(chk, facts)
     response_hom(chk, facts)
     cli_table(chk, facts)
+    validate_flow(chk, facts)
